@@ -110,6 +110,59 @@ def _head_widths(ctx):
     return res
 
 
+def _cross_process(ctx):
+    import json
+    import os
+    import subprocess
+    import tempfile
+
+    from ..lib import env
+
+    divs = []
+    d = tempfile.mkdtemp(prefix="c07x-")
+    path = os.path.join(d, "moves.pkl")
+    try:
+        outs = []
+        for role, seed in (("produce", "11"), ("consume", "22")):
+            e = dict(os.environ, PYTHONHASHSEED=seed)
+            r = subprocess.run([env.PYTHON, "-m", "harness.lib.c07_xproc", role, path], cwd=env.VERIF, env=e, stdout=subprocess.PIPE, stderr=subprocess.PIPE, text=True, timeout=600)
+            outs.append(r)
+            if r.returncode != 0:
+                divs.append(Divergence("impl.cross-process", {"check": "cross-process", "role": role}, "crash: " + r.stderr[-300:], "moves pickle and unpickle"))
+                return divs
+        line = [l for l in outs[1].stdout.splitlines() if l.startswith("C07X ")][-1]
+        res = json.loads(line[5:])
+    finally:
+        import shutil
+
+        shutil.rmtree(d, ignore_errors=True)
+    for n, r in sorted(res["pickled"].items()):
+        for name in ("decoded", "rebuilt"):
+            x = r[name]
+            want = list(range(len(x["encode_move"])))
+            ctx.evaluated(len(want))
+            ctx.count("cross-process:%s:size%s" % (name, n), len(want))
+            for what in ("encode_move", "encode_moves_batch"):
+                if x[what] != want:
+                    got = x[what]
+                    bad = next((i for i, (a, b) in enumerate(zip(got, want)) if a != b), 0) if isinstance(got, list) else 0
+                    divs.append(Divergence("impl.cross-process", {"check": "cross-process", "size": int(n), "moves": name, "call": what, "id": bad},
+                                           "a move equal to decode_move(%s, %d), unpickled from another interpreter, gets %s" % (n, bad, got[bad] if isinstance(got, list) else got), "id %d" % bad))
+                    break
+            if not x["equal_to_local"]:
+                divs.append(Divergence("impl.cross-process", {"check": "cross-process", "size": int(n), "moves": name, "call": "=="}, "unpickled move != decode_move of its id", "equal"))
+    for n in sorted(res["before"]):
+        b, a = res["before"][n], res["after"][n]
+        ctx.evaluated(len(b["decode"]))
+        ctx.count("returned-lists-modified:size%s" % n)
+        if a != b or a["encode_of_decode"] != list(range(len(a["decode"]))):
+            i = next((k for k, (x, y) in enumerate(zip(a["decode"], b["decode"])) if x != y), None)
+            divs.append(Divergence("impl.returned-list", {"check": "returned-list-modified", "size": int(n), "id": i},
+                                   "after a caller modified the lists returned by all_moves_for_size / all_moves: decode_move(%s, %s) = %s, encode∘decode = %s…" % (n, i, a["decode"][i] if i is not None and i < len(a["decode"]) else "?", str(a["encode_of_decode"][:6])),
+                                   "the tables as before (%s)" % (b["decode"][i] if i is not None else "…")))
+    return divs
+
+
 def tie(ctx):
     moves, encoding = _impl()
     divs = []
@@ -204,6 +257,11 @@ def tie(ctx):
             else:
                 ctx.count("no-id:size%d" % n)
     ctx.sample({"size": 5, "id": 648, "decode_move": mv(encoding.decode_move(5, 648)) if n_tables > 5 and encoding.n_moves_for_size(5) > 648 else None})
+
+    # --- ids of moves that crossed a process boundary (a worker's transcript unpickled in the
+    #     trainer, interpreters with different hash seeds), and the tables after callers modified
+    #     the lists the public helpers handed them
+    divs += _cross_process(ctx)
 
     # --- width
     width_model = len(model_table[6])
@@ -311,8 +369,20 @@ def _predicate(ctx, sizes=None):
     return out
 
 
+X_KEYS = {"impl.cross-process": "unpickled-move-loses-its-id", "impl.returned-list": "table-changed-through-returned-list"}
+
+
 def search(ctx, divergences, broken):
     vs = _predicate(ctx)
+    seen = set()
+    for d in divergences:
+        if d.component in X_KEYS:
+            # these ARE the property on the implementation (encode/decode inverse for a move equal to
+            # a table move; the table as it is after ordinary use of the public helpers)
+            d.explained = True
+            if d.component not in seen:
+                seen.add(d.component)
+                vs.append(Violation(X_KEYS[d.component], "%s; expected %s" % (d.impl, d.model), dict(d.input)))
     if vs:
         bad_sizes = {v.replay.get("size") for v in vs if v.key != "id-exceeds-head-width"}
         width_fails = any(v.key == "id-exceeds-head-width" for v in vs)
@@ -327,6 +397,9 @@ def search(ctx, divergences, broken):
 
 def replay(ctx, data):
     r = data.get("replay", data)
+    if r.get("check") in ("cross-process", "returned-list-modified"):
+        comp = "impl.cross-process" if r["check"] == "cross-process" else "impl.returned-list"
+        return [Violation(X_KEYS[d.component], "%s; expected %s" % (d.impl, d.model), dict(d.input)) for d in _cross_process(ctx) if d.component == comp][:1]
     size = r.get("size")
     vs = _predicate(ctx, sizes=[size] if size is not None else None)
     key = r.get("key")
